@@ -67,9 +67,10 @@ REGISTRY['C12'] = {
 }
 REGISTRY['C13'] = {
     'v': ['c13_roles', 'c13_h_api', 'c13_h_cas', 'c13_h_pubd', 'c13_h_ta', 'c13_h_bulk', 'c13_h_testbed', 'c13_h_root', 'c13_h_stats'],
-    'k': [],
-    'level_text': 'Evaluation core: Role::is_allowed is exactly "per-CA grant beats blanket grant, non-CA requests use the general grant"; AuthInfo::check_permission grants exactly when the authenticated role allows, and passes an authentication error on. Route table: every handler reaches a state-touching facade method only after proceed_permitted with the permission the operation requires for the addressed CA (capability preconditions on the facade; oracle table written from the statement).',
-    'level_note': 'PermissionSet::has uninterpreted in the V units (its bit algebra is decided by the K group); facade = KrillManager methods as assumed externals; listing handlers filtering inside closures not covered.',
+    'k': ['k_permissions'],
+    'level_text': 'Evaluation core: Role::is_allowed is exactly "per-CA grant beats blanket grant, non-CA requests use the general grant"; AuthInfo::check_permission grants exactly when the authenticated role allows, and passes an authentication error on; Request::proceed_permitted turns a request into an AuthedRequest exactly after that check (same server, request and identity), proceed_unchecked hands the identity on unchanged; PermissionSet is a faithful set over all 22 permissions and the built-in sets contain what their names promise (Kani, full domain). Route table: every handler reaches a state-touching facade method only after proceed_permitted with the permission the operation requires for the addressed CA (capability preconditions on the facade; oracle table written from the statement).',
+    'level_note': 'PermissionSet::has uninterpreted in the V units (its bit algebra is decided by the K group k_permissions); facade = KrillManager methods as assumed externals; listing handlers filtering inside closures not covered.',
+    'technique': 'Verus contracts on extracted real text (handlers async-erased, R10) + Kani full-domain harnesses for the permission-set algebra',
     'design_ref': 'DESIGN.md section 10.4 (as built) and section 5 / C13',
     'not_covered': ['cas.rs::index_get outside its filter closure (ca_handles / collect glue; the closure that decides which CAs are listed is verified)', 'root.rs::ui / assets (static files from a build artefact)', 'metrics.rs and auth.rs (login) handlers', 'HTTP status mapping; effects of refused calls beyond the facade not being called'],
 }
